@@ -62,6 +62,7 @@ type c12Script struct {
 	apps     int           // 0..3 configured application kinds
 	nAddrs   int           // configured addresses
 	ipv6     bool          // local endpoint when none configured
+	dress    int           // shape of the success CEA (successCEA)
 }
 
 func (s c12Script) String() string {
@@ -69,16 +70,58 @@ func (s c12Script) String() string {
 	for _, x := range s.extras {
 		ex += xNames[x] + " "
 	}
-	return fmt.Sprintf("MaxRetransmits=%d interval=%v: peer answers CER #%d with %s after %v; transport Write returns %v late; extra CEAs [%s]; client apps=%d addrs=%d ipv6=%v",
-		s.N, s.interval, s.atCER, rNames[s.reply], s.delta, s.late, ex, s.apps, s.nAddrs, s.ipv6)
+	return fmt.Sprintf("MaxRetransmits=%d interval=%v: peer answers CER #%d with %s after %v; transport Write returns %v late; extra CEAs [%s]; client apps=%d addrs=%d ipv6=%v; success CEA shape %d",
+		s.N, s.interval, s.atCER, rNames[s.reply], s.delta, s.late, ex, s.apps, s.nAddrs, s.ipv6, s.dress)
 }
 
-func ceaFor(reply int, hbh, e2e uint32) []byte {
+// successCEA: a success CEA that shares an application with the client, in one of the
+// shapes RFC 6733 5.3.2 allows: 0 minimal; 1-3 with Inband-Security-Id AVPs ({TLS, NO},
+// {NO, TLS}, {NO}); 4 Origin-State-Id, Supported-Vendor-Ids, Firmware-Revision; 5 further
+// applications the client does not know next to the shared one; 6 applications first,
+// Result-Code last; 7 a second (IPv6) Host-IP-Address and undefined AVPs; 8 the shared
+// application is the accounting one; 9 it is inside a Vendor-Specific-Application-Id.
+const nC12Dress = 10
+
+func successCEA(dress int, hbh, e2e uint32) []byte {
+	rc := peer.U32(peer.ResultCode, 2001)
+	id := peer.Identity("srv.example", "example")
+	rest := []*refcodec.Node{peer.Addr4(peer.HostIP, 10, 1, 2, 3), peer.U32(peer.VendorID, 99), peer.Str(peer.ProductName, refcodec.UTF8String, "srv")}
+	app := peer.U32(peer.AuthApp, 4)
+	avps := append(append([]*refcodec.Node{rc}, id...), rest...)
+	switch dress {
+	case 1:
+		avps = append(avps, peer.U32(peer.InbandSec, 1), peer.U32(peer.InbandSec, 0), app)
+	case 2:
+		avps = append(avps, app, peer.U32(peer.InbandSec, 0), peer.U32(peer.InbandSec, 1))
+	case 3:
+		avps = append(avps, peer.U32(peer.InbandSec, 0), app)
+	case 4:
+		avps = append(avps, peer.U32(peer.OriginState, 1234567), peer.U32(peer.SupportedVnd, 10415), peer.U32(peer.SupportedVnd, 13019), app, peer.U32(peer.Firmware, 0xFFFFFFFF))
+	case 5:
+		avps = append(avps, peer.U32(peer.AuthApp, 999), peer.Group(peer.VSApp, peer.U32(peer.VendorID, 10415), peer.U32(peer.AuthApp, 99999)), app, peer.U32(peer.AcctApp, 998))
+	case 6:
+		avps = append(append(append([]*refcodec.Node{app}, rest...), id[1], id[0]), rc)
+	case 7:
+		v6 := &refcodec.Node{Code: peer.HostIP, Flags: 0x40, Kind: refcodec.Address, Fam: 2, B: net.ParseIP("2001:db8::5")}
+		u := &refcodec.Node{Code: 0x00E00123, Flags: 0, Kind: refcodec.Unknown, B: []byte{1, 2, 3, 4, 5}}
+		v := &refcodec.Node{Code: 0x00E00124, Flags: 0x80, Vendor: 4242, Kind: refcodec.Unknown, B: []byte("vendor")}
+		avps = append(append([]*refcodec.Node{u}, avps...), v6, app, v)
+	case 8:
+		avps = append(avps, peer.U32(peer.AcctApp, 3))
+	case 9:
+		avps = append(avps, peer.U32(peer.SupportedVnd, 10415), peer.Group(peer.VSApp, peer.U32(peer.VendorID, 10415), peer.U32(peer.AuthApp, 16777251)))
+	default:
+		avps = append(avps, app)
+	}
+	return peer.Msg(0, 257, 0, hbh, e2e, avps...)
+}
+
+func ceaFor(reply int, dress int, hbh, e2e uint32) []byte {
 	id := peer.Identity("srv.example", "example")
 	rest := []*refcodec.Node{peer.Addr4(peer.HostIP, 10, 1, 2, 3), peer.U32(peer.VendorID, 99), peer.Str(peer.ProductName, refcodec.UTF8String, "srv")}
 	switch reply {
 	case rSuccess:
-		return peer.StdCEA(hbh, e2e, 2001, 4)
+		return successCEA(dress, hbh, e2e)
 	case rFailure:
 		return peer.StdCEA(hbh, e2e, 5010)
 	case rNoResultCode:
@@ -162,7 +205,7 @@ func runC12(c *ev.Case, ctx *lib.Ctx, sc c12Script) {
 				mc.FeedEOF()
 				return
 			}
-			if b := ceaFor(sc.reply, h.HopByHop, h.EndToEnd); b != nil {
+			if b := ceaFor(sc.reply, sc.dress, h.HopByHop, h.EndToEnd); b != nil {
 				mc.Feed(b)
 			}
 		}()
@@ -300,7 +343,7 @@ func runC12(c *ev.Case, ctx *lib.Ctx, sc c12Script) {
 		case xLateFailure:
 			mc.Feed(peer.StdCEA(1, 1, 5012))
 		case xMalformed:
-			mc.Feed(ceaFor(rNoResultCode, 1, 1))
+			mc.Feed(ceaFor(rNoResultCode, 0, 1, 1))
 		}
 		time.Sleep(time.Second)
 		synctest.Wait()
@@ -621,6 +664,13 @@ func TestC12(t *testing.T) {
 	rec.Suite("scripts", len(scripts), func(c *ev.Case) {
 		sc := scripts[c.I]
 		c.Class("N=%d/at=%d/reply=%s/extras=%d/late=%v", sc.N, sc.atCER, rNames[sc.reply], len(sc.extras), sc.late > 0)
+		if sc.reply == rSuccess {
+			sc.dress = (c.I + c.I/nC12Dress) % nC12Dress
+			if (sc.dress == 8 && sc.apps < 2) || (sc.dress == 9 && sc.apps < 3) {
+				sc.dress = 1 + c.I%7
+			}
+			c.Class("success-cea-shape=%d", sc.dress)
+		}
 		before := len(lc.String())
 		leak := runBubbleWD(t, rec, c, 60*time.Second, func() { runC12(c, ctx, sc) })
 		if leak != "" && !c.Failed() {
